@@ -257,6 +257,11 @@ func recordMain(args []string) {
 				if (op == "ConvertMagicScalar" || op == "CloneMagicScalar") && skt != "magic" {
 					op = "ConvertConstScalar"
 				}
+				if tt == src.ty && (op == "ConvertConstScalar" || op == "ConvertScalar" || op == "ConvertMagicScalar") {
+					// a conversion to the scalar's own type may return the scalar itself: keep it in
+					// its slot (two slots sharing one scalar is aliasing, property C08, not C02)
+					r = a
+				}
 				var res ad.ConstScalar
 				msg := vh.Try(func() {
 					switch op {
